@@ -40,6 +40,9 @@ def run(ctx):
 
     for i in range(3 if thorough else 1):
         jobs.append({"part": "glunique", "mode": "native", "nrandom": 200 if thorough else 0, "shard": 50 + i})
+    # compiled with gnark's real builders, the state given as compile-time constants
+    for i in range(3 if thorough else 1):
+        jobs.append({"part": "glconst", "mode": "plain", "shard": 60 + i})
 
     def one(j):
         rq = dict(files)
